@@ -32,7 +32,8 @@ Proof.
   - discriminate.
   - destruct (ekind_eqb k KRegion && is_style_elem c); [apply IH|].
     destruct (negb par && match send with None => true | Some _ => false end) eqn:Ebr; [discriminate|].
-    destruct (process ev (mkPctx par send pr lg (negb (ekind_eqb k KSet))) c) as [e'| |r] eqn:Ep.
+    destruct (ekind_eqb k KSet) eqn:Eks; [discriminate|].
+    destruct (process ev (mkPctx par send pr lg _) c) as [e'| |r] eqn:Ep.
     + exfalso. eapply Hc; [|exact Ep]. unfold implicit_begin. cbn [pc_par pc_seq_end].
       destruct par; [discriminate|]. destruct send; [discriminate|discriminate].
     + destruct (x_tail c); [destruct (k_is_mixed k && par)|]; apply IH.
